@@ -27,6 +27,7 @@ type SpecEnv struct {
 	inOld     bool
 	localSt   *State // inside old(): the state that supplies the values of locals
 	clause    string
+	at        token.Pos // position the clause is evaluated at (call-site assertions): resolves shadowed locals
 }
 
 func (fx *fnExec) specEnv(st, old *State, lp *Loop) *SpecEnv {
@@ -149,6 +150,20 @@ func (e *SpecEnv) localAlloc(name string) *ssa.Alloc {
 	}
 	if len(cands) == 1 {
 		return cands[0]
+	}
+	// shadowing: choose the declaration visible at the position of the call site
+	if e.at.IsValid() {
+		if p := e.pkg(); p != nil {
+			if inner := p.Pkg.Scope().Innermost(e.at); inner != nil {
+				if _, obj := inner.LookupParent(name, e.at); obj != nil {
+					for _, a := range cands {
+						if a.Pos() == obj.Pos() {
+							return a
+						}
+					}
+				}
+			}
+		}
 	}
 	// shadowing: choose the declaration visible at the loop position
 	if e.lp != nil {
@@ -814,6 +829,13 @@ func (e *SpecEnv) call(x *SExpr) Val {
 			v := e.eval(args[0])
 			e.st = saved
 			return v
+		case "loopfresh":
+			// loopfresh(x): the object x refers to (now) was allocated after the loop was entered
+			if e.loopEntry == nil {
+				e.fail("loopfresh() outside a loop invariant")
+			}
+			v := e.eval(args[0])
+			return boolVal(And(Not(Select(e.loopEntry.alloc(), v.C[0])), Select(e.st.alloc(), v.C[0])))
 		case "len":
 			v := e.eval(args[0])
 			switch u := v.T.Underlying().(type) {
@@ -867,6 +889,30 @@ func (e *SpecEnv) call(x *SExpr) Val {
 		case "allocated":
 			v := e.eval(args[0])
 			return boolVal(Select(e.st.alloc(), v.C[0]))
+		case "mapvalsle":
+			// mapvalsle(m, c): every value stored in map m is <= c (unsigned); nil map: true
+			m, c := e.eval(args[0]), e.eval(args[1])
+			mt, ok := m.T.Underlying().(*types.Map)
+			if !ok {
+				fail("mapvalsle: %v is not a map", m.T)
+			}
+			ks, vs := mapSorts(mt)
+			if len(vs) != 1 || vs[0].Kind != KBV {
+				fail("mapvalsle: map element type %v not an integer", mt.Elem())
+			}
+			k := Fresh("q_mk", ks)
+			has := Select(Select(e.st.heapGet(mapHasKey(mt), ArraySort(IntSort, ArraySort(ks, BoolSort))), m.C[0]), k)
+			raw := Select(Select(e.st.heapGet(mapValKey(mt, 0), ArraySort(IntSort, ArraySort(ks, vs[0]))), m.C[0]), k)
+			if c.Const != nil {
+				c = e.coerce(c, mt.Elem())
+			}
+			bound := c.C[0]
+			if bound.Sort.W > vs[0].W {
+				raw = ZeroExt(raw, bound.Sort.W)
+			} else if bound.Sort.W < vs[0].W {
+				bound = ZeroExt(bound, vs[0].W)
+			}
+			return boolVal(Forall([]*Term{k}, Implies(has, BVUle(raw, bound))))
 		case "unchanged":
 			cur := e.eval(args[0])
 			saved, savedIn := e.st, e.inOld
@@ -1092,6 +1138,22 @@ func (e *SpecEnv) evalLoc(cl Clause) Loc {
 	case "call":
 		if x.Args[0].Kind == "ident" && (x.Args[0].Name == "elems" || x.Args[0].Name == "spare") {
 			return Loc{Kind: "elems", Slice: e.eval(x.Args[1])}
+		}
+		if x.Args[0].Kind == "ident" && x.Args[0].Name == "mapof" {
+			// contents of every map of m's type (type-level frame: maps are not framed per object)
+			m := e.eval(x.Args[1])
+			mt, ok := m.T.Underlying().(*types.Map)
+			if !ok {
+				e.fail("mapof: %s is not a map", cl.Src)
+			}
+			ks, vs := mapSorts(mt)
+			keys := []string{mapHasKey(mt)}
+			keySortHint[mapHasKey(mt)] = ArraySort(IntSort, ArraySort(ks, BoolSort))
+			for k, srt := range vs {
+				keys = append(keys, mapValKey(mt, k))
+				keySortHint[mapValKey(mt, k)] = ArraySort(IntSort, ArraySort(ks, srt))
+			}
+			return Loc{Kind: "key", Keys: keys}
 		}
 	case "ident":
 		if p := e.pkg(); p != nil {
